@@ -31,10 +31,142 @@ func init() {
 }
 
 func runC29(c *an.Ctx) {
+	c29R = c29FindRoles(c.P)
 	c29CacheKeys(c)
 	c29Publisher(c)
 	c29Resolve(c)
 	c29Routing(c)
+}
+
+// ---------------------------------------------------------------- roles (unexported identifiers are found by role)
+
+// c29Roles: the unexported pieces of package namesys, resolved by what they are and do.
+type c29RolesT struct {
+	nsType     *types.Named // concrete type returned by the exported NewNameSystem
+	nsName     string
+	fCache     *types.Var             // its field of type *lru.Cache
+	fStatic    *types.Var             // its map field with string keys (static entries)
+	fPublisher *types.Var             // its field of the exported interface type Publisher
+	fMu, fDS   *types.Var             // IPNSPublisher: its sync.Mutex field and its datastore field
+	chain      *ssa.Function          // the recursive chain resolver (calls itself from a closure, invokes the once-method on its resolver parameter)
+	onceName   string                 // name of that once-method
+	join       *ssa.Function          // (base, unresolved path.Path) (path.Path, error) calling path.Join
+	emitters   map[*ssa.Function]bool // functions sending their AsyncResult parameter on their channel parameter
+}
+
+var c29R *c29RolesT
+
+func c29FindRoles(p *an.Prog) *c29RolesT {
+	const ns = "namesys"
+	r := &c29RolesT{emitters: map[*ssa.Function]bool{}}
+	fns := p.PkgFuncs(ns)
+	// name system type
+	if ctor := p.Func(ns, "", "NewNameSystem"); ctor != nil {
+		for _, ret := range an.Returns(ctor) {
+			if len(ret.Results) == 0 || an.IsNilConst(ret.Results[0]) {
+				continue
+			}
+			for _, root := range an.Roots(ret.Results[0], nil) {
+				t := root.Type()
+				if pt, ok := t.Underlying().(*types.Pointer); ok {
+					t = pt.Elem()
+				}
+				if nt, ok := types.Unalias(t).(*types.Named); ok {
+					if _, isStruct := nt.Underlying().(*types.Struct); isStruct {
+						r.nsType, r.nsName = nt, nt.Obj().Name()
+					}
+				}
+			}
+		}
+	}
+	if r.nsType != nil {
+		st := r.nsType.Underlying().(*types.Struct)
+		for i := 0; i < st.NumFields(); i++ {
+			f := st.Field(i)
+			switch {
+			case an.TypeIs(f.Type(), "github.com/hashicorp/golang-lru/v2", "Cache"):
+				r.fCache = f
+			case an.TypeIs(f.Type(), ns, "Publisher"):
+				r.fPublisher = f
+			default:
+				if mt, ok := f.Type().Underlying().(*types.Map); ok {
+					if b, ok := mt.Key().Underlying().(*types.Basic); ok && b.Kind() == types.String {
+						r.fStatic = f
+					}
+				}
+			}
+		}
+	}
+	if pt := p.Named(ns, "IPNSPublisher"); pt != nil {
+		if st, ok := pt.Underlying().(*types.Struct); ok {
+			for i := 0; i < st.NumFields(); i++ {
+				f := st.Field(i)
+				switch {
+				case an.TypeIs(f.Type(), "sync", "Mutex"):
+					r.fMu = f
+				case an.TypeIs(f.Type(), "github.com/ipfs/go-datastore", "Datastore"):
+					r.fDS = f
+				}
+			}
+		}
+	}
+	isPath := func(t types.Type) bool { return an.TypeIs(t, "path", "Path") }
+	for _, fn := range fns {
+		if fn.Parent() != nil {
+			continue
+		}
+		// chain resolver: a closure of fn calls fn again
+		for _, g := range an.WithClosures(fn) {
+			if g == fn {
+				continue
+			}
+			for _, call := range an.AllCalls(g) {
+				if call.Common().StaticCallee() == fn {
+					// the once-method: interface method invoked on one of fn's parameters
+					for _, ic := range an.AllCalls(fn) {
+						if ic.Common().IsInvoke() {
+							if _, isP := c28Root(ic.Common().Value).(*ssa.Parameter); isP {
+								r.chain, r.onceName = fn, ic.Common().Method.Name()
+							}
+						}
+					}
+				}
+			}
+		}
+		// join: (path.Path, path.Path) (path.Path, error) calling path.Join
+		if len(fn.Params) == 2 && isPath(fn.Params[0].Type()) && isPath(fn.Params[1].Type()) && fn.Signature.Results().Len() == 2 && isPath(fn.Signature.Results().At(0).Type()) {
+			if len(an.Calls(fn, an.M("path", "", "Join"))) > 0 {
+				r.join = fn
+			}
+		}
+		// emitters: send an AsyncResult parameter on a channel parameter
+		var resP, chP *ssa.Parameter
+		for _, q := range fn.Params {
+			if an.TypeIs(q.Type(), ns, "AsyncResult") {
+				resP = q
+			}
+			if _, ok := q.Type().Underlying().(*types.Chan); ok {
+				chP = q
+			}
+		}
+		if resP != nil && chP != nil {
+			an.Instrs(fn, func(in ssa.Instruction) {
+				switch x := in.(type) {
+				case *ssa.Send:
+					if c25RootsIn(x.Chan, []ssa.Value{chP}) && c25RootsIn(x.X, []ssa.Value{resP}) {
+						r.emitters[fn] = true
+					}
+				case *ssa.Select:
+					for _, st := range x.States {
+						if st.Dir == types.SendOnly && c25RootsIn(st.Chan, []ssa.Value{chP}) && st.Send != nil && c25RootsIn(st.Send, []ssa.Value{resP}) {
+							r.emitters[fn] = true
+						}
+					}
+				}
+			})
+		}
+	}
+	return r
 }
 
 // c29Routing (O6): the record reaches the routing system under the key the resolver searches: every
@@ -145,7 +277,7 @@ func c29Routing(c *an.Ctx) {
 			"IPNSPublisher.Publish does not hand the routing system the record returned (nil edge) by the record update for the caller's key and value")
 	}
 	// namesys.Publish caches the value it was asked to publish
-	if np := p.Func(ns, "namesys", "Publish"); c.Need(np != nil && len(np.Params) >= 4, "namesys.namesys.Publish") {
+	if np := p.Func(ns, c29R.nsName, "Publish"); c.Need(np != nil && len(np.Params) >= 4, "Publish of the type NewNameSystem returns") {
 		var valueP *ssa.Parameter
 		for _, q := range np.Params {
 			if an.TypeIs(q.Type(), "path", "Path") {
@@ -208,8 +340,8 @@ type c29Site struct {
 func c29CacheKeys(c *an.Ctx) {
 	p := c.P
 	const ns = "namesys"
-	fCache, fStatic := p.Field(ns, "namesys", "cache"), p.Field(ns, "namesys", "staticMap")
-	if !c.Need(fCache != nil && fStatic != nil, "namesys.namesys.cache / staticMap") {
+	fCache, fStatic := c29R.fCache, c29R.fStatic
+	if !c.Need(fCache != nil && fStatic != nil, "the LRU cache field and the static string-keyed map field of the type NewNameSystem returns") {
 		return
 	}
 	fns := p.PkgFuncs(ns)
@@ -253,12 +385,12 @@ func c29CacheKeys(c *an.Ctx) {
 				direct = append(direct, c29Site{fn, in, op, "cache", an.Args(x)[0], ""})
 			case *ssa.Lookup:
 				if isFieldLoad(x.X, fStatic) {
-					direct = append(direct, c29Site{fn, in, "lookup", "staticMap", x.Index, ""})
+					direct = append(direct, c29Site{fn, in, "lookup", "static-map", x.Index, ""})
 				}
 			case *ssa.MapUpdate:
 				// the static map is filled through a local before being stored in the field
 				if isFieldLoad(x.Map, fStatic) || c29FlowsToField(fn, x.Map, fStatic) {
-					direct = append(direct, c29Site{fn, in, "write", "staticMap", x.Key, ""})
+					direct = append(direct, c29Site{fn, in, "write", "static-map", x.Key, ""})
 				}
 			}
 		})
@@ -353,7 +485,7 @@ func c29CacheKeys(c *an.Ctx) {
 			var inner []ssa.CallInstruction
 			for _, call := range an.AllCalls(fn) {
 				if call.Common().IsInvoke() && call.Common().Method.Name() == "Publish" {
-					if f, _ := c28FieldRead(call.Common().Value); f != nil && f.Name() == "ipnsPublisher" {
+					if f, _ := c28FieldRead(call.Common().Value); f != nil && f == c29R.fPublisher {
 						inner = append(inner, call)
 					}
 				}
@@ -404,11 +536,11 @@ func c29CacheKeys(c *an.Ctx) {
 	sort.Strings(refDoms)
 	seen := map[string]bool{}
 	for _, x := range cs {
-		construct := strings.TrimSuffix(x.via, ">")
-		if construct == "" {
-			construct = x.sink
+		// role names only (wrapper functions are unexported and may be renamed)
+		construct := x.op + " key on " + x.sink
+		if x.via != "" {
+			construct = x.op + " key via " + x.sink + " wrapper"
 		}
-		construct = x.op + " key via " + construct
 		name := an.FuncName(x.fn)
 		if seen[name+construct+x.dom] {
 			continue
@@ -602,8 +734,8 @@ func c29EdgeGuarded(fn *ssa.Function, pred, blk *ssa.BasicBlock, edges an.EdgeSe
 func c29Publisher(c *an.Ctx) {
 	p := c.P
 	const ns = "namesys"
-	fMu, fDS := p.Field(ns, "IPNSPublisher", "mu"), p.Field(ns, "IPNSPublisher", "ds")
-	if !c.Need(fMu != nil && fDS != nil, "namesys.IPNSPublisher.mu / ds") {
+	fMu, fDS := c29R.fMu, c29R.fDS
+	if !c.Need(fMu != nil && fDS != nil, "the sync.Mutex and the Datastore fields of namesys.IPNSPublisher") {
 		return
 	}
 	dsPkg := "github.com/ipfs/go-datastore"
@@ -669,7 +801,7 @@ func c29Publisher(c *an.Ctx) {
 				lf = an.Locks(fn, an.SyncModel, nil, true)
 				lockFacts[fn] = lf
 			}
-			if lf.Held(at, "p:"+pub.Name()+".mu") == an.LWrite {
+			if lf.Held(at, "p:"+pub.Name()+"."+fMu.Name()) == an.LWrite {
 				return true
 			}
 		}
@@ -720,7 +852,7 @@ func c29Publisher(c *an.Ctx) {
 		if st.kind == "put" {
 			nPut++
 		}
-		c.Check(heldDeep(st.fn, st.call, 0), "O2", "R-GUARD", an.FuncName(st.fn), "mu held at ds."+map[string]string{"put": "Put", "sync": "Sync"}[st.kind], st.call.Pos(), "publisher mutex held on every path (in this function or at every call site of this unexported helper)",
+		c.Check(heldDeep(st.fn, st.call, 0), "O2", "R-GUARD", an.FuncName(st.fn), "publisher lock held at datastore "+map[string]string{"put": "Put", "sync": "Sync"}[st.kind], st.call.Pos(), "publisher mutex held on every path (in this function or at every call site of this unexported helper)",
 			"the publisher mutex is not held on every path at the ds."+map[string]string{"put": "Put", "sync": "Sync"}[st.kind]+": two concurrent publishes can read the same previous sequence and store records out of order (sequence not monotone)")
 	}
 	c.Min("O2 datastore writes of the IPNS publisher", nPut, 1)
@@ -757,7 +889,7 @@ func c29Publisher(c *an.Ctx) {
 				continue
 			}
 			nRead++
-			c.Check(heldDeep(fn, call, 0), "O2", "R-GUARD", name, "mu held at read of previous record", call.Pos(), "publisher mutex held on every path",
+			c.Check(heldDeep(fn, call, 0), "O2", "R-GUARD", name, "publisher lock held at read of previous record", call.Pos(), "publisher mutex held on every path",
 				"the publisher mutex is not held on every path at the read of the previous record: two concurrent publishes can read the same previous sequence and store records out of order (sequence not monotone)")
 		}
 		c.Check(nRead > 0, "O2", "R-GUARD", name, "reads previous record", fn.Pos(), "previous record read in the same critical section", "the datastore is written without reading the previous record in the same critical section: the sequence cannot be derived from the stored record")
@@ -1179,22 +1311,24 @@ func c29SeqLeaves(c *an.Ctx, fn *ssa.Function, recVals []ssa.Value, valueP *ssa.
 
 func c29Resolve(c *an.Ctx) {
 	p := c.P
+	_ = p
 	const ns = "namesys"
-	outer := p.Func(ns, "", "resolveAsync")
-	if !c.Need(outer != nil, "namesys.resolveAsync") {
+	c29TTLFn = nil
+	outer := c29R.chain
+	if !c.Need(outer != nil, "the recursive chain resolver of package namesys (a function whose closure calls it again)") {
 		return
 	}
 	// the worker: closure containing the recursive call
 	var worker *ssa.Function
 	var rec *ssa.Call
 	for _, g := range an.WithClosures(outer) {
-		for _, call := range an.Calls(g, an.M(ns, "-", "resolveAsync")) {
-			if cv := an.CallValue(call); cv != nil && cv.Call.StaticCallee() == outer {
+		for _, call := range an.AllCalls(g) {
+			if cv := an.CallValue(call); cv != nil && g != outer && cv.Call.StaticCallee() == outer {
 				worker, rec = g, cv
 			}
 		}
 	}
-	if !c.Need(worker != nil, "recursive call of resolveAsync") {
+	if !c.Need(worker != nil, "recursive call of the chain resolver") {
 		return
 	}
 	if len(rec.Call.Args) < 4 {
@@ -1301,12 +1435,12 @@ func c29Resolve(c *an.Ctx) {
 	// (e) TTL of sub-results
 	c29TTL(c, worker, rec, parentCell)
 
-	// minNonZeroTTL
-	if mf := p.Func(ns, "", "minNonZeroTTL"); c.Need(mf != nil && len(mf.Params) == 2, "namesys.minNonZeroTTL") {
-		c29MinTTL(c, mf)
+	// the TTL combinator (found by role in c29TTL: the function whose result replaces the sub-result's TTL)
+	if mf := c29TTLFn; mf != nil && len(mf.Params) == 2 {
+		c29MinTTL(c, mf) // when no combinator is applied at all, the R-POST obligation above already reports it
 	}
 	// joinPaths
-	if jp := p.Func(ns, "", "joinPaths"); c.Need(jp != nil && len(jp.Params) == 2, "namesys.joinPaths") {
+	if jp := c29R.join; c.Need(jp != nil && len(jp.Params) == 2, "the remainder-joining helper (base, unresolved path.Path) (path.Path, error) of package namesys") {
 		base, unres := jp.Params[0], jp.Params[1]
 		n, good := 0, true
 		for _, call := range an.Calls(jp, an.M("path", "", "Join")) {
@@ -1348,6 +1482,15 @@ func c29DepthCopy(c *an.Ctx, fn *ssa.Function, name string, optVal ssa.Value, an
 	var subCell *ssa.Alloc
 	if u, ok := optVal.(*ssa.UnOp); ok && u.Op == token.MUL {
 		subCell, _ = u.X.(*ssa.Alloc)
+		if fv, isFV := u.X.(*ssa.FreeVar); isFV && subCell == nil {
+			// the options copy is a variable of an enclosing function captured by the worker (computation hoisted
+			// out of the worker): analyse it where it is built, relative to the creation of the closure
+			if cell := an.CellOf(fv); cell != nil && cell.Parent() != nil {
+				if site := an.EnclosingSite(cell.Parent(), anchor); site != nil {
+					subCell, fn, anchor = cell, cell.Parent(), site
+				}
+			}
+		}
 	}
 	if subCell == nil {
 		if fromCaller(optVal) {
@@ -1409,13 +1552,87 @@ func c29DepthCopy(c *an.Ctx, fn *ssa.Function, name string, optVal ssa.Value, an
 func c29Emits(fn *ssa.Function, cell ssa.Value) []ssa.Instruction {
 	var out []ssa.Instruction
 	for _, call := range an.AllCalls(fn) {
-		if call.Common().StaticCallee() == nil || !strings.HasPrefix(call.Common().StaticCallee().Name(), "emit") {
+		if call.Common().StaticCallee() == nil || !c29R.emitters[call.Common().StaticCallee()] {
 			continue
 		}
 		for _, a := range call.Common().Args {
 			if u, ok := a.(*ssa.UnOp); ok && u.Op == token.MUL && u.X == cell {
 				out = append(out, call)
 			}
+		}
+	}
+	return out
+}
+
+// c29RootsF: provenance like an.Roots, additionally looking through fields of local struct variables (also captured
+// ones): a load of <local>.f stands for the values stored to <local>.f anywhere in the function family.
+func c29RootsF(v ssa.Value, depth int) []ssa.Value {
+	var out []ssa.Value
+	for _, r := range an.Roots(v, nil) {
+		u, ok := r.(*ssa.UnOp)
+		if ok && u.Op == token.MUL && depth < 3 {
+			if fa, isFA := u.X.(*ssa.FieldAddr); isFA {
+				if cell := an.CellOf(fa.X); cell != nil && cell.Parent() != nil {
+					fld, _ := an.FieldOf(fa)
+					n := 0
+					for _, g := range an.WithClosures(c25Outer(cell.Parent())) {
+						an.Instrs(g, func(in ssa.Instruction) {
+							st, ok := in.(*ssa.Store)
+							if !ok {
+								return
+							}
+							f2, b2 := an.FieldOf(st.Addr)
+							if f2 == nil || f2 != fld || an.CellOf(b2) != cell {
+								return
+							}
+							n++
+							out = append(out, c29RootsF(st.Val, depth+1)...)
+						})
+					}
+					if n == 0 {
+						// the variable is filled as a whole from a composite-literal temporary: its fields
+						for _, ws := range c29CellStores(cell) {
+							if l2, ok := ws.Val.(*ssa.UnOp); ok && l2.Op == token.MUL {
+								if c2, ok := l2.X.(*ssa.Alloc); ok && c2 != cell {
+									an.Instrs(c2.Parent(), func(in ssa.Instruction) {
+										st, ok := in.(*ssa.Store)
+										if !ok {
+											return
+										}
+										f2, b2 := an.FieldOf(st.Addr)
+										if f2 == nil || f2 != fld || b2 != ssa.Value(c2) {
+											return
+										}
+										n++
+										out = append(out, c29RootsF(st.Val, depth+1)...)
+									})
+								}
+							}
+						}
+					}
+					if n > 0 {
+						continue
+					}
+				}
+			}
+		}
+		out = append(out, r)
+	}
+	return out
+}
+
+// c29TTLFn: the TTL combinator found by c29TTL.
+var c29TTLFn *ssa.Function
+
+// c29CallsTo: call instructions of fn whose static callee is target.
+func c29CallsTo(fn, target *ssa.Function) []ssa.CallInstruction {
+	var out []ssa.CallInstruction
+	if target == nil {
+		return nil
+	}
+	for _, call := range an.AllCalls(fn) {
+		if call.Common().StaticCallee() == target {
+			out = append(out, call)
 		}
 	}
 	return out
@@ -1436,7 +1653,7 @@ func c29TTL(c *an.Ctx, worker *ssa.Function, rec *ssa.Call, parentCell ssa.Value
 			if st.Dir != types.RecvOnly {
 				continue
 			}
-			for _, r := range an.Roots(st.Chan, nil) {
+			for _, r := range c29RootsF(st.Chan, 0) {
 				if r == ssa.Value(rec) {
 					sel, subIdx = s, k
 				}
@@ -1476,8 +1693,8 @@ func c29TTL(c *an.Ctx, worker *ssa.Function, rec *ssa.Call, parentCell ssa.Value
 		if f == nil || f.Name() != "TTL" || b != subCell {
 			return
 		}
-		mc, ok := c25RootCall(st.Val, an.M("namesys", "-", "minNonZeroTTL"))
-		if !ok {
+		mc, ok := c25RootCall(st.Val, an.M("namesys", "", ""))
+		if !ok || mc.Call.StaticCallee() == nil || len(mc.Call.Args) != 2 {
 			return
 		}
 		var parent, own bool
@@ -1489,7 +1706,7 @@ func c29TTL(c *an.Ctx, worker *ssa.Function, rec *ssa.Call, parentCell ssa.Value
 			// parentTTL: loop-carried, coming from the parent's TTL at the recursion site (or 0 initially)
 			okp := true
 			np := 0
-			for _, r := range an.Roots(a, nil) {
+			for _, r := range c29RootsF(a, 0) {
 				if k, isK := r.(*ssa.Const); isK && k.Value != nil && constant.Sign(k.Value) == 0 {
 					continue
 				}
@@ -1507,10 +1724,11 @@ func c29TTL(c *an.Ctx, worker *ssa.Function, rec *ssa.Call, parentCell ssa.Value
 		}
 		if parent && own {
 			fixes = append(fixes, st)
+			c29TTLFn = mc.Call.StaticCallee()
 		}
 	})
 	for _, e := range emits {
-		c.Check(an.MustPrecede(worker, e, fixes), "O4", "R-POST", name, "sub-result TTL = minNonZeroTTL(parentTTL, TTL) before emit", e.Pos(), "every emitted sub-result had its TTL combined with the parent's",
+		c.Check(an.MustPrecede(worker, e, fixes), "O4", "R-POST", name, "sub-result TTL = min-non-zero(parentTTL, TTL) before emit", e.Pos(), "every emitted sub-result had its TTL combined with the parent's",
 			"a result of the recursive resolution is emitted without its TTL having been replaced by minNonZeroTTL(parent TTL, own TTL): the reported TTL is not the smallest non-zero TTL along the chain")
 	}
 }
@@ -1665,8 +1883,8 @@ func c29ValsIn(v ssa.Value, set []ssa.Value) bool {
 func c29ResolveOnce(c *an.Ctx) {
 	p := c.P
 	const ns = "namesys"
-	ro := p.Func(ns, "namesys", "resolveOnceAsync")
-	if !c.Need(ro != nil && len(ro.Params) >= 3, "namesys.namesys.resolveOnceAsync") {
+	ro := p.Func(ns, c29R.nsName, c29R.onceName)
+	if !c.Need(ro != nil && len(ro.Params) >= 3, "the single-hop resolve method of the type NewNameSystem returns (the method the chain resolver invokes)") {
 		return
 	}
 	name := an.FuncName(ro)
@@ -1693,13 +1911,13 @@ func c29ResolveOnce(c *an.Ctx) {
 		}
 	}
 	c.Check(len(resolvable) > 0, "O4", "R-FLOW", name, "resolvable=/segments[0]/segments[1]", ro.Pos(), "the name resolved is namespace+root of the input", "resolveOnceAsync does not build the resolvable path from the first two segments of its input")
-	isJoin := func(f *ssa.Function) bool { return f.Name() == "joinPaths" }
+	isJoin := func(f *ssa.Function) bool { return f == c29R.join }
 	fam := c29Family(ro, map[string][]ssa.Value{"in": {in}, "resolvable": resolvable}, isJoin)
 	// resolver is asked for the resolvable path
 	n, good := 0, true
 	for _, m := range fam {
 		for _, call := range an.AllCalls(m.fn) {
-			if call.Common().IsInvoke() && call.Common().Method.Name() == "resolveOnceAsync" {
+			if call.Common().IsInvoke() && call.Common().Method.Name() == c29R.onceName {
 				n++
 				if len(m.roles["resolvable"]) == 0 || !c29ValsIn(call.Common().Args[1], m.roles["resolvable"]) {
 					good = false
@@ -1711,7 +1929,7 @@ func c29ResolveOnce(c *an.Ctx) {
 	// every emitted AsyncResult.Path is joinPaths(x, in)
 	nj, okj := 0, true
 	for _, m := range fam {
-		for _, call := range an.Calls(m.fn, an.M(ns, "-", "joinPaths")) {
+		for _, call := range c29CallsTo(m.fn, c29R.join) {
 			nj++
 			if len(m.roles["in"]) == 0 || !c29ValsIn(call.Common().Args[1], m.roles["in"]) {
 				okj = false
@@ -1852,7 +2070,7 @@ func c29CachedValue(c *an.Ctx, ro *ssa.Function, fam []c29Member) {
 			nW++
 			gname := an.FuncName(g)
 			construct := "cached value is the bare resolver result"
-			if jc, ok := c25RootCall(val, an.M(ns, "-", "joinPaths")); ok && jc != nil {
+			if jc, ok := c25RootCall(val, an.M(ns, "", "")); ok && jc != nil && jc.Call.StaticCallee() == c29R.join {
 				c.Bad("O4", "R-FLOW", gname, construct, call.Pos(), "the value written to the cache is a joinPaths result (resolved base + this request's remainder): the next cache hit appends its own remainder to it and returns base/old-remainder/new-remainder")
 				continue
 			}
@@ -1932,9 +2150,9 @@ func c29CachedValue(c *an.Ctx, ro *ssa.Function, fam []c29Member) {
 	// cache hit: joinPaths(lookup result, input)
 	hit := false
 	for _, m := range fam {
-		for _, call := range an.Calls(m.fn, an.M(ns, "-", "joinPaths")) {
+		for _, call := range c29CallsTo(m.fn, c29R.join) {
 			a := call.Common().Args
-			if lc, ok := c25RootCall(a[0], an.M(ns, "namesys", "")); ok && isLookup(lc.Call.StaticCallee()) && len(m.roles["in"]) > 0 && c29ValsIn(a[1], m.roles["in"]) {
+			if lc, ok := c25RootCall(a[0], an.M(ns, "", "")); ok && isLookup(lc.Call.StaticCallee()) && len(m.roles["in"]) > 0 && c29ValsIn(a[1], m.roles["in"]) {
 				n := lc.Call.Signature().Results().Len()
 				oks := an.Result(lc, n-1)
 				if len(oks) > 0 && an.GuardedBy(m.fn, nil, call, an.BoolEdges(m.fn, oks, true)) {
